@@ -40,3 +40,23 @@ func TestSmokeSA(t *testing.T) {
 	f, tr, n := w.query(a, uint64(i1))
 	fmt.Println(f, js(tr), n)
 }
+
+// TestFeeReplayDemo (observation, no stated property violated): a transaction whose first message is
+// authenticated and whose second is not leaves the fee charged and the sequence numbers unchanged, so
+// the very same signed bytes are accepted for charging again.
+func TestFeeReplayDemo(t *testing.T) {
+	w := newWorld(t)
+	w.begin("feedemo", 2, map[string]string{"p1": "full", "p2": "full"}, nil)
+	_, i1, _, _ := w.addMsg(w.byName["A1"], leaf("probe", "p1", true, true, true, true, true))
+	_, i2, _, _ := w.addMsg(w.byName["A2"], leaf("probe", "p2", false, true, true, true, true))
+	ts := txSpec{Msgs: []txMsg{{A: "A1", Sel: i1, M: msgBody{K: "send", T: nilNode()}}, {A: "A2", Sel: i2, M: msgBody{K: "send", T: nilNode()}}}, Ext: "ok", Fee: 1}
+	tx, err := w.build(ts, func(i int) uint64 { return uint64(i) })
+	if err != nil {
+		t.Fatal(err)
+	}
+	for k := 0; k < 3; k++ {
+		_, _, err := w.App.BaseApp.SimDeliver(w.enc.TxConfig.TxEncoder(), tx)
+		s := w.state()
+		fmt.Printf("delivery %d of the same bytes: accepted=%v fee units charged to A1=%d sequence of A1=%d\n", k+1, err == nil, s.Fee["A1"], s.Seq["A1"])
+	}
+}
